@@ -8,6 +8,11 @@ import (
 
 	"pgregory.net/rapid"
 
+	"github.com/oasisprotocol/oasis-core/go/common/cbor"
+	"github.com/oasisprotocol/oasis-core/go/common/node"
+	"github.com/oasisprotocol/oasis-core/go/consensus/api/transaction"
+	registry "github.com/oasisprotocol/oasis-core/go/registry/api"
+
 	"verifharness/chain"
 	"verifharness/ev"
 )
@@ -65,6 +70,11 @@ func TestC17Registry(t *testing.T) {
 		fp = append(fp, fmt.Sprintf("%+v", *spec))
 		rotations, rejected, expiries := 0, 0, 0
 		prevNodes := -1
+		// positions (height*1000 + index in the block) of the last successful registration of each node and of the last
+		// successful change of the runtime's node stake thresholds: a node registered AFTER that change has its claim computed
+		// from the current runtime descriptor, so a wrong claim of such a node is not the recorded stale-claims finding
+		registeredAt := map[string]int64{}
+		thresholdsChangedAt := int64(-1)
 		for bi := 0; bi < nblocks; bi++ {
 			view, err := chain.NewView(r)
 			if err != nil {
@@ -83,7 +93,9 @@ func TestC17Registry(t *testing.T) {
 			// registry traffic on top
 			g := chain.NewTxGen(sim.W, view, "registry")
 			// preconditions of the two recorded registry findings are only built while they are not listed as known
-			g.Allow = map[string]bool{chain.SigStaleNodeClaims: !ev.Excluded(chain.SigStaleNodeClaims), chain.SigNodeKeyAsSubKey: !ev.Excluded(chain.SigNodeKeyAsSubKey)}
+			// (the stale-claims finding is told apart by the oracle below, so its precondition - a runtime changing its node
+			// thresholds - is always generated: what happens AFTER such a change is part of the property)
+			g.Allow = map[string]bool{chain.SigStaleNodeClaims: true, chain.SigNodeKeyAsSubKey: !ev.Excluded(chain.SigNodeKeyAsSubKey)}
 			// nonces: account for what GenBlock already generated for the same signers
 			for _, d := range bg.Txs {
 				if d.ExpectAuthOK {
@@ -110,6 +122,14 @@ func TestC17Registry(t *testing.T) {
 			}
 			fp = append(fp, b.Hash)
 			base := len(bg.Txs)
+			for i, raw := range b.Full {
+				if i < len(out.TxResults) && out.TxResults[i].Code == 0 {
+					if id, ok := registeredNode(raw); ok {
+						registeredAt[id] = b.Height*1000 + int64(i)
+					}
+				}
+			}
+			seqBefore := sim.W.RtThresholdsSeq
 			line := fmt.Sprintf("h=%d", b.Height)
 			for i, rt := range regs {
 				res := out.TxResults[base+i]
@@ -125,6 +145,10 @@ func TestC17Registry(t *testing.T) {
 				}
 				if res.Code == 0 && rt.OnSuccess != nil {
 					rt.OnSuccess()
+					if sim.W.RtThresholdsSeq != seqBefore {
+						seqBefore = sim.W.RtThresholdsSeq
+						thresholdsChangedAt = b.Height*1000 + int64(base+i)
+					}
 					if containsAny(rt.Note, "swap", "cycle", "fresh") {
 						rotations++
 						rec.Label("rotation:" + rotationKind(rt.Note))
@@ -146,14 +170,29 @@ func TestC17Registry(t *testing.T) {
 				cv.Close()
 				ev.Infra(t, "dump: %v", err)
 			}
-			sig, msg := chain.RegistryInvariants(cv, dump)
+			sig, msg, wrong := chain.RegistryInvariantsEx(cv, dump)
 			nn, _ := cv.Reg.Nodes(cv.Ctx())
 			cv.Close()
 			if sig == "registry-unreadable" {
 				ev.Infra(t, "%s", msg)
 			}
+			if sim.W.RtThresholdsSeq != seqBefore {
+				thresholdsChangedAt = b.Height*1000 + 999 // (changed by a transaction accounted for elsewhere: position unknown)
+			}
 			if sig == "wrong-stake-claim" && sim.W.RtThresholdsChanged {
 				sig = chain.SigStaleNodeClaims // (node claims computed from the runtime descriptor as it was when the node registered)
+				for _, wc := range wrong {
+					if at, ok := registeredAt[string(wc.Claim)]; ok && at > thresholdsChangedAt {
+						// ... but this node has registered again since: its claim was computed from the current descriptor
+						sig, msg = "wrong-stake-claim", wc.Msg+" (the node registered again after the last change of the runtime's thresholds)"
+						break
+					}
+				}
+				if sig == chain.SigStaleNodeClaims && ev.Excluded(chain.SigStaleNodeClaims) {
+					// the recorded finding, exactly: claims of nodes that have not registered since the change
+					rec.Label("known-finding-seen:stale-claims-of-nodes-not-registered-since-the-change")
+					sig = ""
+				}
 			}
 			if sig != "" {
 				fail(sig, "after block %d: %s", b.Height, msg)
@@ -285,4 +324,19 @@ func TestC17KeySwap(t *testing.T) {
 			ev.Violation(t, sig, "node re-registered with keys exchanged (%s): %s", perm, msg)
 		}
 	}
+}
+
+// registeredNode returns the stake claim name of the node a raw RegisterNode transaction registers.
+func registeredNode(raw []byte) (string, bool) {
+	var st transaction.SignedTransaction
+	var tx transaction.Transaction
+	if cbor.Unmarshal(raw, &st) != nil || cbor.Unmarshal(st.Blob, &tx) != nil || tx.Method != registry.MethodRegisterNode {
+		return "", false
+	}
+	var sn node.MultiSignedNode
+	var nd node.Node
+	if cbor.Unmarshal(tx.Body, &sn) != nil || cbor.Unmarshal(sn.Blob, &nd) != nil {
+		return "", false
+	}
+	return string(registry.StakeClaimForNode(nd.ID)), true
 }
